@@ -172,6 +172,11 @@ class _Plugin(object):
 
 def handler(kind):
     """one instance of each real handler class; nothing is connected"""
+    if kind.startswith("tor@"):
+        # "tor@<setup>@<stage>@<mode>": a FRESH Tor handler whose Tor is in that state (see tor_handler_in_state below)
+        _, setup, stage, mode = kind.split("@")
+        none = lambda x: None if x in ("", "None") else x
+        return tor_handler_in_state(setup, none(stage), none(mode))
     if kind not in _handlers:
         from zope.interface import directlyProvides
         from twisted.internet.interfaces import IStreamClientEndpoint
@@ -218,10 +223,14 @@ def describe_endpoint(ep, host):
 
 
 def fire(d):
-    """a Deferred that has already fired -> ("ok", value) | ("exc", exception)"""
+    """a Deferred that has already fired (or fires once the eventual-send queue of the virtual reactor has run: a Tor
+    handler answers through an observer list) -> ("ok", value) | ("exc", exception) | ("pending", None)"""
     from twisted.python.failure import Failure
     out = []
     d.addBoth(out.append)
+    if not out:
+        from harness import implenv as E
+        E.turn()
     if not out:
         return ("pending", None)
     r = out[0]
@@ -664,3 +673,170 @@ def connect_all_probe(hints):
     finally:
         tcp.HostnameEndpoint, flog.err, connection.TubConnector = saved
     return out
+
+
+# ---------------------------------------------------------------------------- Tor handlers whose Tor is NOT (yet) there
+
+class TorDown(Exception):
+    """what a Tor that cannot be launched / reached fails with in these probes"""
+
+
+# how each public constructor of connections/tor.py is made, and the stages its _connect goes through
+TOR_SETUPS = {
+    "default_socks": (),
+    "socks_endpoint": (),
+    "launch": ("launch",),
+    "control_endpoint": ("connect", "bootstrap", "socksport"),
+    "control_endpoint_maker": ("maker", "connect", "bootstrap", "socksport"),
+    "control_endpoint_maker/no-status": ("maker", "connect", "bootstrap", "socksport"),
+}
+# what happens at the stage where the Tor sticks
+TOR_MODES = ("never", "fails", "up-later", "fails-later")
+_TOR = dict(stick=None, mode=None, held=[], calls=[], installed=False)
+
+
+def tor_states():
+    """every (setup, stage, mode) that can be realised; (setup, None, None) = all stages pass at once"""
+    out = []
+    for setup in sorted(TOR_SETUPS):
+        out.append((setup, None, None))
+        for stage in TOR_SETUPS[setup]:
+            for mode in (("fails",) if stage == "socksport" else TOR_MODES):
+                out.append((setup, stage, mode))
+    return out
+
+
+def _tor_gate(stage, value):
+    from twisted.internet import defer
+    _TOR["calls"].append(stage)
+    if _TOR["stick"] != stage:
+        return defer.succeed(value)
+    if _TOR["mode"] == "fails":
+        return defer.fail(TorDown("no Tor (%s)" % stage))
+    d = defer.Deferred()
+    _TOR["held"].append((d, value))
+    return d
+
+
+class _TorConfig(object):
+    """stands for txtorcon.TorConfig: launch() fills one in; a control connection reads one from the running Tor"""
+    def __init__(self):
+        self.SocksPort = None
+
+    @classmethod
+    def from_protocol(cls, tproto):
+        c = cls()
+        c.SocksPort = ["unix:/var/run/tor/socks WorldWritable"] if _TOR["stick"] == "socksport" else ["9050"]
+        return _tor_gate("bootstrap", c)
+
+
+class _TorProto(object):
+    tor_protocol = None
+
+
+class _TxtorconProxy(object):
+    """txtorcon with the three calls that talk to a Tor process replaced; everything else (TorClientEndpoint,
+    DEFAULT_VALUE ...) is the real module's"""
+    TorConfig = _TorConfig
+
+    def __init__(self, real):
+        self._real = real
+
+    def __getattr__(self, name):
+        return getattr(self._real, name)
+
+    def launch_tor(self, config, reactor, tor_binary=None, **kw):
+        return _tor_gate("launch", _TorProto())
+
+    def build_tor_connection(self, endpoint, build_state=False, **kw):
+        return _tor_gate("connect", _TorProto())
+
+
+def tor_handler_in_state(setup, stage, mode):
+    """a FRESH handler from the public constructor `setup` whose Tor sticks at `stage` in the way `mode` says"""
+    from zope.interface import directlyProvides
+    from twisted.internet.interfaces import IStreamClientEndpoint
+    from harness import implenv as E  # noqa: the virtual reactor must be in place before the handler's observer list is used
+    from foolscap.connections import tor
+    if not _TOR["installed"]:
+        import txtorcon
+        tor.txtorcon = _TxtorconProxy(txtorcon)
+        tor.allocate_tcp_port = lambda: 45678              # the real one opens sockets
+        _TOR["installed"] = True
+    _TOR.update(stick=stage, mode=mode, held=[], calls=[])
+    ctl = _SamEndpoint()
+    directlyProvides(ctl, IStreamClientEndpoint)
+    if setup == "default_socks":
+        return tor.default_socks()
+    if setup == "socks_endpoint":
+        return tor.socks_endpoint(ctl)
+    if setup == "launch":
+        return tor.launch()
+    if setup == "control_endpoint":
+        return tor.control_endpoint(ctl)
+    if setup == "control_endpoint_maker":
+        return tor.control_endpoint_maker(lambda reactor, update_status: _tor_gate("maker", ctl), takes_status=True)
+    if setup == "control_endpoint_maker/no-status":
+        return tor.control_endpoint_maker(lambda reactor: _tor_gate("maker", ctl))
+    raise KeyError(setup)
+
+
+def _watch(d):
+    out = []
+    d.addBoth(out.append)
+    return out
+
+
+def _seen(out):
+    """-> ["pending"] | ["ok", [kind, host, port, host2]] | ["exc", class name, is InvalidHintError]"""
+    from twisted.python.failure import Failure
+    from foolscap.ipb import InvalidHintError
+    if not out:
+        return ["pending"]
+    r = out[0]
+    if isinstance(r, Failure):
+        return ["exc", exc_name(r.value), isinstance(r.value, InvalidHintError)]
+    try:
+        ep, host = r
+        return ["ok", describe_endpoint(ep, host)]
+    except Exception as e:  # noqa
+        return ["exc", "bad-result:" + exc_name(e), False]
+
+
+def tor_probe(setup, stage, mode, hints, via="handler"):
+    """the hints, one after the other (as the hints of one FURL are), to ONE fresh Tor handler in the given state;
+    via = "handler": handler.hint_to_endpoint; via = "get_endpoint": connection.get_endpoint with the handler registered for "tor" and "tcp" hints.
+    -> [{"now": what the caller holds once the reactor is idle, "later": the same after the Tor came up / gave up}]"""
+    from twisted.internet import defer
+    from harness import implenv as E
+    from foolscap import connection
+    from foolscap.logging import log as flog
+    E.reset_clock()
+    h = tor_handler_in_state(setup, stage, mode)
+    saved = flog.err
+    flog.err = lambda *a, **k: None
+    try:
+        watched = []
+        for hint in hints:
+            if via == "get_endpoint":
+                d = connection.get_endpoint(hint, {"tor": h, "tcp": h}, _Info())
+            else:
+                d = defer.maybeDeferred(h.hint_to_endpoint, hint, None, lambda status: None)
+            watched.append(_watch(d))
+            E.turn()
+        now = [_seen(w) for w in watched]
+        started = list(_TOR["calls"])
+        held, _TOR["held"] = _TOR["held"], []
+        for d, value in held:
+            if mode == "up-later":
+                d.callback(value)
+            elif mode == "fails-later":
+                d.errback(TorDown("Tor gave up (%s)" % stage))
+            E.turn()
+        E.turn()
+        later = [_seen(w) for w in watched]
+        for (d, value) in _TOR["held"]:                      # a later stage stuck as well: cannot happen (one stage sticks)
+            d.addErrback(lambda f: None)
+    finally:
+        flog.err = saved
+    return [dict(now=a, later=b, tor_calls=started) for a, b in zip(now, later)]
